@@ -117,6 +117,52 @@ pub fn dispatch(f: &[&str]) -> Option<String> {
             }
             out.join(";")
         },
+        "hmix" => {
+            // hmix <w|a> <old> <tokens>: a Stdfs handle interleaved with other writers of the same file.
+            // w<hex> handle write, f handle flush (content recorded), b<hex> write through a second append handle, g flush it,
+            // A<hex> vfs.append_all, W<hex> vfs.write_all, d drop the first handle (content recorded)
+            let old = unhex(f[2]);
+            let toks = f.get(3).copied().unwrap_or("");
+            let d = sandbox("hmix");
+            let vfs = Vfs::stdfs();
+            let p = d.join("f");
+            vfs.write_all(&p, &old).unwrap();
+            let mut out = vec![];
+            {
+                let mut h = Some(if f[1] == "a" { vfs.append(&p).unwrap() } else { vfs.write(&p).unwrap() });
+                let mut h2 = vfs.append(&p).unwrap();
+                for t in toks.split(',').filter(|x| !x.is_empty()) {
+                    match &t[..1] {
+                        "w" => {
+                            if let Some(x) = h.as_mut() {
+                                x.write_all(&unhex(&t[1..])).unwrap();
+                            }
+                        },
+                        "f" => {
+                            if let Some(x) = h.as_mut() {
+                                let _ = x.flush();
+                            }
+                            out.push(content(&vfs, &p));
+                        },
+                        "b" => h2.write_all(&unhex(&t[1..])).unwrap(),
+                        "g" => {
+                            let _ = h2.flush();
+                            out.push(content(&vfs, &p));
+                        },
+                        "A" => vfs.append_all(&p, &unhex(&t[1..])).unwrap(),
+                        "W" => vfs.write_all(&p, &unhex(&t[1..])).unwrap(),
+                        "d" => {
+                            h = None;
+                            out.push(content(&vfs, &p));
+                        },
+                        _ => {},
+                    }
+                }
+            }
+            out.push(content(&vfs, &p));
+            let _ = std::fs::remove_dir_all(&d);
+            out.join(";")
+        },
         _ => return None,
     })
 }
